@@ -127,8 +127,10 @@ package execution
 
 // The graph representation invariant (edge maps agree with the abstract edge relation) is handed down from Execute to the
 // task closure: Execute requires it, each closure is created where it holds.
+// C03: the pool that runs every target command is sized by the configured num_workers and by nothing else
 //@ func (*Executor).Execute(e, ctx) (m, err)
 //@   requires [graph] graphWF(e.graph) && e.targetHasher.graph == e.graph
+//@   before_call NewTaskWorkerPool#1 [pool_sized_by_num_workers] arg2 == old(config.Global.NumWorkers)
 
 //@ func (*Executor).Execute$2(ctx, node) (r, err)
 //@   before_call getTaskFunc#1 [task_gets_the_targets_own_tools] binTools == binToolsFor(e.graph, target) && outputIdentifiers == outputIdsFor(e.graph, target)
